@@ -64,7 +64,7 @@ type jqField struct {
 }
 
 type jqF struct {
-	Kind   string // path | lit | obj | arr | alt
+	Kind   string // path | lit | obj | arr | alt | comma (top level only)
 	Path   []string
 	Lit    any
 	Fields []jqField
@@ -100,6 +100,12 @@ func (f *jqF) text() string {
 		return "[" + strings.Join(ps, ",") + "]"
 	case "alt":
 		return "(" + f.A.text() + "//" + f.B.text() + ")"
+	case "comma": // top level only: several outputs
+		var ps []string
+		for _, it := range f.Items {
+			ps = append(ps, "("+it.text()+")")
+		}
+		return strings.Join(ps, ",")
 	}
 	return "?"
 }
@@ -128,6 +134,12 @@ func (f *jqF) ast() any {
 		return map[string]any{"a": is}
 	case "alt":
 		return map[string]any{"alt": []any{f.A.ast(), f.B.ast()}}
+	case "comma":
+		is := []any{}
+		for _, it := range f.Items {
+			is = append(is, it.ast())
+		}
+		return map[string]any{"c": is}
 	}
 	return nil
 }
@@ -146,7 +158,7 @@ func (f *jqF) paths(acc map[string]bool) {
 		for _, fl := range f.Fields {
 			fl.F.paths(acc)
 		}
-	case "arr":
+	case "arr", "comma":
 		for _, it := range f.Items {
 			it.paths(acc)
 		}
@@ -209,7 +221,20 @@ var g4SafeFilterPaths = [][]string{
 	{"data", "k"}, {"data"}, {"metadata", "labels"}, {"metadata", "name"}, {"nope"}, {"spec", "nope", "deeper"}, {},
 }
 
-func g4GenFilter(rng *Rng, depth int) *jqF { return g4GenFilterWith(rng, depth, g4FilterPaths) }
+func g4GenFilter(rng *Rng, depth int) *jqF { return g4GenProg(rng, depth, g4FilterPaths) }
+
+// g4GenProg: one expression of the fragment, or (12%) two or three joined by `,` at top level — a
+// program with several outputs, which ApplyFilterValue merges the legacy way.
+func g4GenProg(rng *Rng, depth int, paths [][]string) *jqF {
+	if !rng.Chance(12) {
+		return g4GenFilterWith(rng, depth, paths)
+	}
+	f := &jqF{Kind: "comma"}
+	for n := rng.Range(2, 3); n > 0; n-- {
+		f.Items = append(f.Items, g4GenFilterWith(rng, depth-1, paths))
+	}
+	return f
+}
 
 func g4GenFilterWith(rng *Rng, depth int, paths [][]string) *jqF {
 	k := rng.Intn(100)
